@@ -2,6 +2,7 @@
 C15 — Observe accounting: sequence strictly increases; eviction exactly past
 limit.  Model: Model/Observe.lean.
 -/
+import CoapLite.Lemmas.Shape.Api
 import CoapLite.Lemmas.Observe
 import CoapLite.Lemmas.ObserveRefine
 import CoapLite.Lemmas.Shape.Observe
@@ -174,5 +175,12 @@ theorem state_shape_matches_source :
     Shapes.resource = [("observers", "Vec<Observer<Endpoint>>"), ("sequence", "u32")] ∧
     Shapes.subject = [("phantom", "PhantomData<Endpoint>"), ("resources", "BTreeMap<ResourcePath,Resource<Endpoint>>"), ("unacknowledged_limit", "u8")] :=
   ⟨ShapeTie.no_global_state, ShapeTie.observer, ShapeTie.resource, ShapeTie.subject⟩
+
+/-- the public entry points of the modelled source files – re-read from /repo/src on every run – are
+exactly the ones the model was written against (`Lemmas/Shape/Api.lean`): a new public way to change the
+state this property is about, or a receiver that became `&mut self`, breaks this theorem -/
+theorem api_surface_matches_source :
+    Shapes.apiObserve = ShapeTie.expectedApiObserve :=
+  ShapeTie.apiObserve
 
 end CoapLite.C15
